@@ -13,7 +13,7 @@ MANIFEST = {
     'note': '"heard" counts any delivered message, a superset of what the code counts (replies), so the monitor is never stricter than the statement; the clock advances with every read and send, the check uses the time at the start of the tick.',
 }
 LEVEL = 'exploration'
-RULE = ('case = (configuration with leaderFallbackTimeout in {0.11,0.5,2,30}, sizes 2-5; step list <=250 with partitions/heals/ticks/submissions). '
+RULE = ('case = (configuration with leaderFallbackTimeout in {0.11,0.5,2,30}, sizes 2-5; step list <=250 with partitions/heals/ticks/submissions; every 4th case with dynamic membership (nodes added/removed), where only the has-quorum indicator is judged). '
         'non-trivial = a leader was cut off from the majority for longer than the timeout (on its own clock) and was later reconnected; distinct = distinct case digests')
 ASSUMPTIONS = ['"cut off" = partitions or kills leave fewer than a majority of voters reachable (plain connection breaks are not partitions)']
 
